@@ -8,7 +8,7 @@
    in this model. *)
 From CV Require Import Promise.Promise Promise.PromiseProofs Promise.PromiseStepProofs Promise.MuProofs
   Promise.PromiseTheorems Promise.PromiseLive Promise.PromiseProxies Promise.PromiseJoin Promise.PromiseJoinProofs Promise.PromiseJoinThms Promise.PromiseJoinInv Promise.PromiseJoinRefs Promise.PromiseJoinForest Promise.PromiseJoinDest Promise.PromiseJoinChain Promise.PromiseJoinLive Promise.PromiseJoinStuck Promise.PromiseJoinZero Promise.PromiseJoinHook Promise.PromiseJoinPath
-  Promise.PromiseJoinHookStuck Promise.PromiseJoinLands.
+  Promise.PromiseJoinHookStuck Promise.PromiseJoinLands Promise.PromiseJoinRel.
 Open Scope Z_scope.
 
 (* the promise resolves at most once; Fulfill/Reject after the first one panics (OPanic), the
@@ -360,6 +360,26 @@ Theorem C11_join_proxy_targets : forall v np ops c,
     jx_target (getx c x) = Some (res_dest res (jx_path (getx c x))).
 Proof. exact join_proxy_targets. Qed.
 Print Assumptions C11_join_proxy_targets.
+
+(* proxy_clients_resolved_and_released on chains, in the shape of the single-promise theorem:
+   (resolved) once Fulfill / Reject of promise k has returned, every proxy whose owner's next-chain ends at k - the
+   pipelined clients of k and of every promise joined, directly or not, onto k, whether still in k's table or already
+   taken by ReleaseClients - refers to what that resolution holds at the proxy's path;
+   (released) every proxy is in some promise's client table, or in the loop of the ReleaseClients call that took its
+   table, or released: once the table of a chain has been taken (by the last ReleaseClients of the chain,
+   C11_join_chain_release) and that call has returned, every proxy that was in it is released. *)
+Theorem C11_join_proxy_clients_resolved_and_released : forall v np ops c,
+  jv_alloc_table v = true -> jreach v np ops c ->
+  (forall t th k, nth_error (jthreads c) t = Some th -> (exists caps, j_op th = JFulfill k caps) \/ j_op th = JReject k ->
+     j_pc th = QDone -> j_out th = ORet ->
+     forall x, (x < length (jproxies c))%nat -> nreach c (own c x) k ->
+       jx_target (getx c x) = Some (res_dest (jop_res (j_op th)) (jx_path (getx c x)))) /\
+  (forall x, (x < length (jproxies c))%nat ->
+     (exists r, in_rows c r x) \/
+     (exists t th, nth_error (jthreads c) t = Some th /\ j_pc th = QRel /\ In x (j_rest th)) \/
+     jx_rel (getx c x) = true).
+Proof. exact join_proxy_clients_resolved_and_released. Qed.
+Print Assumptions C11_join_proxy_clients_resolved_and_released.
 
 (* the premises are satisfiable together: the variant of the code as it is, and an ordered history with two Joins
    that runs to a configuration where every operation has finished *)
